@@ -40,6 +40,12 @@ var c17Reqs = []c17Req{
 	{"thunk-then-nonnull-fail", `{ x1 leafy { s i sNN } b { name nn { s iNN } } }`, nil, map[string]string{"R@leafy.s": FThunk, "R@leafy.i": FThunk, "R@leafy.sNN": FErr, "R@b.name": FThunk, "R@b.nn.s": FThunk, "R@b.nn.iNN": FNil}, "field", false, false},
 	{"mutation-on-query-only-schema", `mutation { ... on Node { id } s1(v:1) }`, nil, nil, "validation", true, false},
 	{"resolver-panics", `{ x1 leafy { s sNN } b { id name } x2 }`, nil, map[string]string{"R@x1": FPanicErr, "R@leafy.s": FPanicStr, "R@b.id": FPanicInt, "R@x2": FPanicErr}, "field", false, false},
+	// syntax errors in documents with Windows and old Mac line ends (the error is
+	// reported with the line and column of the text that was sent)
+	{"syntax-crlf", "{\r\n  x1\r\n  a {\r\n    id\r\n  }\r\n  leafy { s \r\n", nil, nil, "syntax", false, false},
+	{"syntax-cr", "{\r  x1\r  a {\r    id\r  }\r  leafy { s \r", nil, nil, "syntax", false, false},
+	{"syntax-crlf-mid", "query Q {\r\n  x1\r\n  a { id }\r\n}\r\n\r\nquery R {\r\n  x2 ]", nil, nil, "syntax", false, false},
+	{"success-crlf", "{\r\n  x1\r\n  a {\r\n    name\r\n  }\r\n}\r\n", nil, nil, "success", false, false},
 	{"subscription-on-query-only-schema", `subscription { ... on U { ... on A { id } } events { id } }`, nil, nil, "validation", true, false},
 }
 
@@ -50,7 +56,9 @@ var c17ExtConf = [][2]int{{1, 0}, {2, 0}, {2, 1}, {3, 0}, {3, 1}, {3, 2}}
 
 type C17Scn struct {
 	Req       int               `json:"req"`
-	Entry     string            `json:"entry"` // do | plan | plan-addext (extensions registered after planning)
+	Entry     string            `json:"entry"` // do | plan | plan-addext (extensions registered after planning) | do-copy / plan-copy (see Run)
+	// SpanPerField: the extensions hand a per-field context to the resolvers and cancel it when the field is done
+	SpanPerField bool `json:"span_per_field,omitempty"`
 	NExt      int               `json:"n_ext"`
 	Plan      map[string]string `json:"plan,omitempty"`
 	HasResult map[string]bool   `json:"has_result,omitempty"`
@@ -108,7 +116,8 @@ func (p c17) Gen(seed uint64, enum int, tier string) json.RawMessage {
 		s.Cancel = c16{}.Gen(r.Uint64(), -1, tier)
 		return mustJSON(s)
 	}
-	s.Entry = []string{"do", "plan", "plan-addext"}[r.Intn(3)]
+	s.Entry = []string{"do", "plan", "plan-addext", "do", "plan", "do-copy", "plan-copy"}[r.Intn(7)]
+	s.SpanPerField = r.Chance(20)
 	s.Req = r.Intn(len(c17Reqs))
 	s.NExt = 1 + r.Intn(3)
 	s.Plan = map[string]string{}
@@ -211,7 +220,7 @@ func (c17) Run(t TestingT, scn json.RawMessage, tape *Tape) *Outcome {
 	run := &ExtRun{Plan: sc.Plan, HasResult: sc.HasResult}
 	var exts []graphql.Extension
 	for i := 0; i < sc.NExt; i++ {
-		exts = append(exts, &SimExt{N: extName(i), R: run})
+		exts = append(exts, &SimExt{N: extName(i), R: run, SpanPerField: sc.SpanPerField})
 	}
 	verifmo.Set(verifmo.Sorted, 0)
 	var w *World
@@ -230,6 +239,19 @@ func (c17) Run(t TestingT, scn json.RawMessage, tape *Tape) *Outcome {
 	var res *graphql.Result
 	var escaped interface{}
 	entry := sc.Entry
+	// do-copy / plan-copy: copies of the schema value are taken and extensions
+	// of the same names (logging elsewhere) are registered on the copies only;
+	// the request runs against the original, whose own extensions must see it
+	// and nobody else
+	other := &ExtRun{HasResult: sc.HasResult}
+	if strings.HasSuffix(entry, "-copy") {
+		entry = strings.TrimSuffix(entry, "-copy")
+		c1, c2 := w.Schema, w.Schema
+		for i := 0; i < sc.NExt; i++ {
+			c1.AddExtensions(&SimExt{N: extName(i), R: other})
+		}
+		c2.AddExtensions(&SimExt{N: extName(0), R: other}, &SimExt{N: "E9", R: other})
+	}
 	func() {
 		defer func() {
 			if r := recover(); r != nil {
@@ -280,6 +302,11 @@ func (c17) Run(t TestingT, scn json.RawMessage, tape *Tape) *Outcome {
 		o.Violate("C17/escaped-panic", "a panic escaped the entry point (%s): %v", entry, escaped)
 		return o
 	}
+	other.mu.Lock()
+	if len(other.Log) > 0 {
+		o.Violate("C17/foreign-extension", "extensions registered only on copies of the schema value saw hooks of a request against the original: %v", other.Log)
+	}
+	other.mu.Unlock()
 	if res == nil {
 		o.Violate("C17/nil-result", "entry point returned nil")
 		return o
@@ -570,6 +597,36 @@ func c17Cancel(t TestingT, sc *C17Scn, tape *Tape) *Outcome {
 	o.Fire("cancel-scenario", 1)
 	if o.Infra != "" || !probe.Returned {
 		return o
+	}
+	if probe.Settled {
+		// everything the request started has finished: every resolve
+		// notification that was started has been finished, also in an execution
+		// the caller had abandoned
+		end := parseExtLog(probe.LogAtEnd)
+		for i := 0; i < sc.NExt; i++ {
+			x := extName(i)
+			open := map[string]int{}
+			for _, e := range end {
+				if e.Ext != x {
+					continue
+				}
+				switch e.Hook {
+				case "RS":
+					if !e.Failed {
+						open[e.Path]++
+					}
+				case "RE":
+					open[e.Path]--
+				}
+			}
+			for _, path := range SortedKeys(open) {
+				if open[path] != 0 {
+					o.Violate("C17/resolve-unfinished", "%s: when everything the request started had finished, RS:%s was started %+d times more than finished (the caller had returned with data=%v)", x, path, open[path], probe.HasData)
+					break
+				}
+			}
+		}
+		o.Probe("settled-log-judged")
 	}
 	evs := parseExtLog(probe.LogAtReturn)
 	for i := 0; i < sc.NExt; i++ {
